@@ -7,6 +7,13 @@ TECH = "solver-based bounded checking: symbolic execution of the real Python fun
 NOTE = ("Trusted base: the symx engine in /verif/vf (proxies, container models, sre interpreter; self-validated against CPython on every run and by concolic replay of explored paths), z3 5.1, "
         "md5 abstracted as an uninterpreted function, CPython/stdlib semantics outside the instrumented modules. Bounds are printed in the evidence file.")
 CLAIMED = {
+ "C02": ("3/C02", "All addresses and all hash functions: real anonymize/deanonymize composed on fresh instances (both orders), on an instance warmed by an arbitrary earlier request, and through the real _anonymize_match forward+undo; assertions discharged by z3 on every explored path. Bounded in the configuration family and warm-up depth."),
+ "C03": ("3/C03", "Every answer of a history-laden real instance is compared in-path with a fresh instance's answer: 2 arbitrary requests (all directions, all addresses via an exhaustive common-prefix split) and deep histories inside a symbolic bit window; all hash functions. Bounded in history depth and configurations."),
+ "C04": ("3/C04", "Summary of the real anonymize() per configuration; membership in every configured prefix, host-bit preservation and independence discharged by z3 for all addresses and hash functions. Bounded in the configuration family."),
+ "C05": ("3/C05", "Real _is_mask vs an independent 66-constant specification on all 2^32 values; kept-verbatim / replaced-by-image through the real _anonymize_match and no-collision for preserved networks, for all addresses and hash functions. Bounded in the configuration family."),
+ "C11": ("3/C11", "Real _generate_as_number_replacement on all decimal strings up to 10 digits with the digest a free 128-bit value (block membership, rejection above 2^32-1, stability); real anonymize_as_numbers with its generated pattern on symbolic lines against an independent digit-run scanner. Bounded in line length and number lists."),
+ "C17": ("3/C17", "Real dump_to_file after two arbitrary requests (exhaustive common-prefix split), both caching paths, seeded full-length entries: completeness, agreement with a fresh instance and uniqueness discharged per path. Bounded in request count and configurations."),
+ "C18": ("3/C18", "Real $9$ codec: per-position step lemma over all previous/plaintext characters (covers every length), whole-function round trips for all plaintexts up to a length bound and every Latin-1 salt character, and decrypt on all short strings (only ValueError, only well-formed input accepted)."),
  "C01": ("3/C01", "All 2^32 / 2^128 address pairs and all hash functions: the real anonymize() is summarised path by path and the prefix-preservation assertion is discharged by z3 per configuration of a stated family; plus joint runs on one shared instance. Bounded in the configuration family only."),
 }
 NA = {}
